@@ -98,6 +98,10 @@ var engCases = []engCase{
 	{"min-builtin", prelude + `func f(x *S, n int) { x.A = min(n, x.B); mark() }`, "f", `x.A <= x.B && x.A <= n`, true},
 	{"clamp-both-nonneg", prelude + `func f(x *S) { if x.A > x.B { x.A = x.B }; if x.B < 0 { x.B = 0 }; if x.A < 0 { x.A = 0 }; mark() }`, "f", `0 <= x.A && x.A <= x.B`, true},
 	{"clamp-both-max", prelude + `func f(x *S) { if x.A > x.B { x.A = x.B }; x.B = max(x.B, 0); x.A = max(x.A, 0); mark() }`, "f", `0 <= x.A && x.A <= x.B`, true},
+	{"len-nonneg", prelude + `func f(xs []int) { if len(xs) == 0 { return }; mark() }`, "f", `len(xs) > 0`, true},
+	{"subfield-assign-keeps-ptr", prelude + `func f(x *S) { if x.P == nil { x.P = &S{} }; x.P.A = 3; mark() }`, "f", `x.P != nil`, true},
+	{"sync-closure", prelude + "func each(f func(int) bool) {}\n" + `func f(x *S) { if x.P == nil { return }; each(func(i int) bool { mark(); return x.P.A == i }) }`, "f", `x.P != nil`, true},
+	{"go-closure", prelude + `func f(x *S) { if x.P == nil { return }; go func() { mark() }() }`, "f", `x.P != nil`, false},
 	{"zero-literal", prelude + `func f() { x := &S{C: 3}; mark(); _ = x }`, "f", `x.A == 0 && x.Name == "" && !x.On && x.P == nil`, true},
 	{"zero-literal-keyed", prelude + `func f() { x := &S{A: 3}; mark(); _ = x }`, "f", `x.A == 0`, false},
 	{"zero-then-both", prelude + `func f(crd bool) { x := &S{}; if crd { x.A = 0; x.B = 0 }; mark() }`, "f", `x.A <= x.B`, true},
